@@ -131,6 +131,8 @@ static int gen_table_sorter(fb_output_t *out, fb_compound_type_t *ct)
     if (ct->export_index & direct_sortable)
     for (sym = ct->members; sym; sym = sym->link) {
         member = (fb_member_t *)sym;
+        /* Deprecated fields have no accessors and are not marked sortable. */
+        if (member->metadata_flags & fb_f_deprecated) continue;
         symbol_name(sym, &n, &s);
         if (!(member->metadata_flags & fb_f_sorted)) continue;
         switch (member->type.type) {
